@@ -82,11 +82,14 @@ def spec (_ : Unit) (op : String) (obs : String) : String :=
     | some i =>
       let si : Lumina.Spec.C27.In :=
         { fromValid := i.fromValid, fromHeight := i.fromHeight, sameChain := i.sameChain, amount := i.amount,
-          chainLen := i.net.chainLen, allFull := i.net.beh.all (· == .full), fuel := i.fuel }
+          chainLen := i.net.chainLen, progressing := i.net.beh.all Beh.progressing, fuel := i.fuel }
       let o? : Option Lumina.Spec.C27.Obs :=
         match words obs with
-        | "ok" :: runs :: _ => (parseRuns runs).map .ok
-        | "err" :: _ => some .err
+        | "ok" :: runs :: _ =>
+          match parseRuns runs, natArg? (words obs) "steps" with
+          | some hs, some st => some (.ok hs st)
+          | _, _ => none
+        | "err" :: _ => (natArg? (words obs) "steps").map .err
         | ["panic"] => some .panic
         | ["hang"] => some .hang
         | _ => none
@@ -102,8 +105,13 @@ def spec (_ : Unit) (op : String) (obs : String) : String :=
           | .hang =>
             if i.amount == 0 then "specfail C27/zero-amount-hang amount 0: the session asks for 0 headers and retries InvalidRequest for ever"
             else "specfail C27/served-but-hangs"
-          | .ok _ => "specfail C27/wrong-headers returned headers are not exactly the requested ones"
-          | .err => "specfail C27/served-but-error"
+          | .ok hs st =>
+            if !Lumina.Spec.C27.prompt si st then "specfail C27/not-prompt answered requests before returning: amount 0 needs none, a served call at most `amount`"
+            else if hs == List.range' (i.fromHeight + 1) i.amount then "specfail C27/unverified-headers Ok although the headers do not verify against `from`"
+            else "specfail C27/wrong-headers returned headers are not exactly the requested ones"
+          | .err st =>
+            if !Lumina.Spec.C27.prompt si st then "specfail C27/not-prompt answered requests before returning an error"
+            else "specfail C27/served-but-error"
     | none => "specfail C27/unparsed"
   | "reset" :: _ => "specskip"
   | _ => "specfail C27/unparsed"
